@@ -402,6 +402,12 @@ def check_shift(ctx, rep):
     if set(lambdas) != {'then', 'else'} or regime_test not in ('self.k <= 0', 'self.k > 0'):
         raise Unsupported(init, 'the two regimes of self.max not recognised')
     hard, smooth = ('then', 'else') if regime_test == 'self.k <= 0' else ('else', 'then')
+    # the forward map has two regimes chosen by k (hard / smooth maximum): the inverse must distinguish them too — an inverse written for the hard maximum alone subtracts
+    # max(children) from heights that were built with logsumexp(k·children)/k, and the round trip is off by up to log(2)/k
+    inv_consults = any(self_attr(x) in ('k', 'max') for x in ast.walk(inv))
+    rep.check('C06.S', 'DifferenceNodeHeightTransform._inverse::distinguishes-the-regimes-of-the-forward-map', inv_consults, where(d.module, inv), {'regime_test_of_the_forward_map': regime_test},
+              "DifferenceNodeHeightTransform.__init__ chooses a hard or a smooth maximum for the forward map from self.k, but _inverse consults neither self.k nor self.max: it inverts "
+              "one of the two regimes only, so for the other one inverse(forward(x)) ≠ x")
     # smooth_max is logsumexp(k·x)/k along the requested axis
     sm = ctx.prog.resolve('torchtree.ops.smooth.smooth_max')
     sm_ok = False
@@ -510,6 +516,7 @@ def run(ctx, rep):
     c02.check_leaf_index(ctx, rep, 'C06.F', 'tips::')
     rep.rule('C06.C', "every conversion of sampling dates into tip heights follows one convention in the four sign cases of (earliest, most recent) date: the date itself when the earliest is zero, most recent − date otherwise")
     check_date_conventions(ctx, rep)
+    check_dates_stay_with_their_taxon(ctx, rep)
 
 
 # ---------------------------------------------------------------------------
@@ -651,3 +658,66 @@ def check_date_conventions(ctx, rep):
             rep.check('C06.C', f"{name}::{label[case]}", bool(got) and got <= want[case], where(m, fn), {'stored_as_tip_height': sorted(got), 'expected': sorted(want[case])},
                       f"{name}: for {label[case]} the tips are given {sorted(got)} as height; the convention (and the sibling conversion) is {sorted(want[case])} — tips then sit at "
                       f"heights that do not match their sampling dates, and heights initialised from a tree are inconsistent with the sampling times of the model")
+
+
+ZIP_POSITIVE = """
+def taxa_to_json(taxa):
+    taxon_list = [{"id": taxon} for taxon in sorted(taxa)]
+    for taxon, date in zip(taxon_list, taxa.values()):
+        taxon["attributes"] = {"date": date}
+    ok = [(k, v) for k, v in zip(taxa.keys(), taxa.values())]
+    return taxon_list
+"""
+
+
+def reordered_zip_with_values(fn):
+    """`zip(A, D.values())` where A was built from `sorted(D)` (or reversed / another ordering of D's keys): the i-th element of A is the i-th SMALLEST key, the i-th value belongs
+    to the i-th INSERTED key — every taxon gets another taxon's date unless the dictionary happened to be filled in sorted order"""
+    out = []
+    assigns = {}
+    for st in ast.walk(fn):
+        if isinstance(st, ast.Assign) and len(st.targets) == 1 and isinstance(st.targets[0], ast.Name):
+            assigns.setdefault(st.targets[0].id, []).append(st.value)
+
+    def sorted_of(e, depth=0):
+        """name of the dictionary D if e is derived from sorted(D) / sorted(D.keys()) / reversed(...)"""
+        for x in ast.walk(e):
+            if isinstance(x, ast.Call) and isinstance(x.func, ast.Name) and x.func.id in ('sorted', 'reversed') and x.args:
+                a = x.args[0]
+                if isinstance(a, ast.Call) and isinstance(a.func, ast.Attribute) and a.func.attr == 'keys':
+                    a = a.func.value
+                if isinstance(a, ast.Name):
+                    return a.id
+        if isinstance(e, ast.Name) and e.id in assigns and depth < 3:
+            for v in assigns[e.id]:
+                r = sorted_of(v, depth + 1)
+                if r:
+                    return r
+        return None
+    for c in ast.walk(fn):
+        if isinstance(c, ast.Call) and isinstance(c.func, ast.Name) and c.func.id == 'zip' and len(c.args) >= 2:
+            vals = [a.func.value.id for a in c.args if isinstance(a, ast.Call) and isinstance(a.func, ast.Attribute) and a.func.attr in ('values', 'items') and isinstance(a.func.value, ast.Name)]
+            for a in c.args:
+                d = sorted_of(a)
+                if d and d in vals:
+                    out.append((c, d))
+    return out
+
+
+def check_dates_stay_with_their_taxon(ctx, rep):
+    t = ast.parse(ZIP_POSITIVE).body[0]
+    if len(reordered_zip_with_values(t)) != 1:
+        raise AnalysisError('C06.F self-check: reordered zip of the embedded example not recognised')
+    n = 0
+    for mname, m in sorted(ctx.prog.modules.items()):
+        if not (mname.startswith('torchtree.evolution.tree_model') or mname in ('torchtree.evolution.taxa', 'torchtree.evolution.alignment')):
+            continue
+        for fn in ast.walk(m.tree):
+            if not isinstance(fn, ast.FunctionDef):
+                continue
+            n += 1
+            for c, d in reordered_zip_with_values(fn):
+                rep.bad('C06.F', f"{mname.replace('torchtree.', '')}::{fn.name}::{norm_text(c)[:50]}::dates-stay-with-their-taxon", where(m, c), {'dictionary': d},
+                        f"{fn.name}: `{norm_text(c)[:60]}` pairs a SORTED list of the keys of `{d}` with `{d}.values()` in insertion order: unless `{d}` was filled in sorted order every "
+                        f"taxon is given another taxon's sampling date, and the tips sit at the wrong heights")
+    rep.ok('C06.F', 'tree-models::taxon-and-date-are-paired-by-key', '', {'functions_scanned': n})
